@@ -434,6 +434,75 @@ def l3b_case(args):
     return (gs, ts), errs
 
 
+def l3c_case(args):
+    """replicate files that share a read naming scheme (read ids r0, r1, ... present in BOTH files of the experiment, --read_group
+       file_name): every alignment of isoform T1 lies in file L1 and every alignment of T2 in file L2 (same gene, same chromosome), so
+       whatever the multi-mapper resolution keeps, T1 may only be counted under L1 and T2 only under L2, and the groups partition the
+       ungrouped value.  'shared' = which of the 4 read ids of L1 also occur in L2, 'swap' = file order on the command line"""
+    shared, swap, himem, threads, scratch = args
+    from vlib import worlds as W, syn, run
+    w = W.base_world(2, 9000)
+    w["genes"].append(W.locus_gene("G1", "chr1", "+", 1000, {"T1": [0, 1, 2, 3], "T2": [0, 2, 3]}))
+    w["genes"].append(W.locus_gene("G2", "chr2", "-", 1000, {"T4": [0, 1, 2]}))
+    syn.plant_for_transcripts(w)
+    f1 = [W.read_of("r%d" % i, "chr1", W.exons(1000, [0, 1, 2, 3])) for i in range(4)] + [W.read_of("q1", "chr2", W.exons(1000, [0, 1, 2]), strand="-")]
+    f2 = [W.read_of("r%d" % i if i in shared else "s%d" % i, "chr1", W.exons(1000, [0, 2, 3])) for i in range(4)] + \
+         [W.read_of("q2", "chr2", W.exons(1000, [0, 1, 2]), strand="-")]
+    w["reads"] = []
+    d = os.path.join(scratch, "c09c_%s_%d%d%d" % ("".join(map(str, shared)) or "none", swap, himem, threads))
+    shutil.rmtree(d, ignore_errors=True)
+    paths = syn.materialise(w, d)
+    seqs = syn.genome_sequences(w)
+    b1 = syn.write_bam(w, os.path.join(d, "one.bam"), reads=f1, seqs=seqs)
+    b2 = syn.write_bam(w, os.path.join(d, "two.bam"), reads=f2, seqs=seqs)
+    out = os.path.join(d, "out")
+    files, labels = ([b2, b1], ["L2", "L1"]) if swap else ([b1, b2], ["L1", "L2"])
+    argv = ["--output", out, "--reference", paths["ref"], "--data_type", "nanopore", "--prefix", "OUT", "--threads", str(threads),
+            "--genedb", paths["gtf"], "--complete_genedb", "--counts_format", "both", "--no_model_construction",
+            "--bam"] + files + ["--labels"] + labels + ["--read_group", "file_name"] + (["--high_memory"] if himem else [])
+    rc = run.run_isoquant(argv, paths["home"], os.path.join(d, "o.txt"))
+    errs = []
+    key = (tuple(shared), swap, himem, threads)
+    if rc != 0:
+        errs.append(("run-failed", "exit %d: %s" % (rc, open(os.path.join(d, "o.txt")).read()[-400:].replace("\n", " | "))))
+        shutil.rmtree(d, ignore_errors=True)
+        return key, errs
+    allowed = {"T1": "L1", "T2": "L2", "T4": None, "G1": None, "G2": None}
+    for level in ("gene", "transcript"):
+        try:
+            h0, ung = run.parse_counts(run.find(out, "OUT", ".%s_counts.tsv" % level))
+            ung = {k: float(v[0][0]) for k, v in (ung or {}).items() if not k.startswith("__")}
+            header, rows = run.parse_counts(run.find(out, "OUT", ".%s_grouped_counts.tsv" % level))
+            mat = {}
+            for ft, vals in (rows or {}).items():
+                if ft.startswith("__"):
+                    continue
+                for v in vals:
+                    for gname, x in zip(header[1:], v):
+                        mat[(ft, gname)] = mat.get((ft, gname), 0.0) + float(x)
+        except Exception as e:  # noqa
+            errs.append(("tables-unreadable", "%s: %r" % (level, e)))
+            continue
+        for (ft, g), v in sorted(mat.items()):
+            if v and allowed.get(ft) and g != allowed[ft]:
+                errs.append(("wrong-file-group", "%s %s has %.2f reads under %s, all its alignments are in file %s (table %s)" %
+                             (level, ft, v, g, allowed[ft], sorted((k, x) for k, x in mat.items() if x))))
+        for ft in sorted(set(ung) | set(f for f, _ in mat)):
+            sm = sum(v for (f, _), v in mat.items() if f == ft)
+            if abs(sm - ung.get(ft, 0.0)) > 0.011:
+                errs.append(("not-a-partition", "%s %s: groups sum to %.2f, ungrouped %.2f" % (level, ft, sm, ung.get(ft, 0.0))))
+        if level == "transcript" and not shared and {k: v for k, v in mat.items() if v} != {("T1", "L1"): 4.0, ("T2", "L2"): 4.0, ("T4", "L1"): 1.0, ("T4", "L2"): 1.0}:
+            errs.append(("matrix-wrong", "no shared ids: transcript matrix %s" % sorted(mat.items())))
+        if level == "gene":
+            t1 = sum(v for (f, g), v in mat.items() if f == "G1" and g == "L1")
+            t2 = sum(v for (f, g), v in mat.items() if f == "G1" and g == "L2")
+            errs_info = (t1, t2)
+    if os.environ.get("VERIF_C09_DEBUG"):
+        print(key, sorted((k, v) for k, v in mat.items() if v), errs_info)
+    shutil.rmtree(d, ignore_errors=True)
+    return key, errs
+
+
 def run(ctx):
     quick = ctx.tier == "quick"
     n1, bad1 = l1_groupers(ctx.scratch)
@@ -503,6 +572,14 @@ def run(ctx):
         for k, msg in errs:
             ctx.violation("l3b:%s" % k, "gene strategy %s, transcript strategy %s: %s" % (key[0], key[1], msg), {"l3b": list(key)})
     ctx.note("partition oracle on the all-types world: %d strategy pairs" % len(sp))
+    cj = [(sh, swap, himem, threads, ctx.scratch) for n in range(5) for sh in itertools.combinations(range(4), n) for swap in (0, 1)
+          for himem in ((0,) if quick else (0, 1)) for threads in ((1,) if quick else (1, 2))]
+    for key, errs in core.pmap(l3c_case, cj):
+        nl3 += 1
+        for k, msg in errs:
+            ctx.violation("l3c:%s" % k, "read ids %s shared between the two files, file order swapped=%s high_memory=%s threads=%d: %s" %
+                          (list(key[0]), key[1], key[2], key[3], msg), {"l3c": [list(key[0])] + list(key[1:])})
+    ctx.note("shared read ids between files of one experiment: %d runs (all subsets of 4 ids x file order)" % len(cj))
     ctx.note("L3 pipeline runs: %d" % nl3)
     ctx.coverage.update({
         "evaluations": total + nl3, "distinct_nontrivial": nontriv + nl3,
@@ -517,6 +594,12 @@ def run(ctx):
 
 
 def replay(ctx, case):
+    if "l3c" in case:
+        c = case["l3c"]
+        key, errs = l3c_case((tuple(c[0]), c[1], c[2], c[3], ctx.scratch))
+        for k, msg in errs:
+            ctx.violation("l3c:%s" % k, msg, case)
+        return
     if "l3b" in case:
         key, errs = l3b_case((case["l3b"][0], case["l3b"][1], ctx.scratch))
         return errs[0][1] if errs else None
